@@ -60,6 +60,7 @@ func zvC10Build(addPath bool) *zvC10World {
 	p := w.addPeer(o)
 	fsm := newFSM(p)
 	conn := w.newConn(nil, "capture")
+	conn.writePoint = true // a write to the peer is a point at which the other threads may get ahead
 	fsm.con = conn
 	fsm.supports4OctetASN = true
 	f := fsm.ipv4Unicast
